@@ -67,7 +67,7 @@ def gen_address(rng, files):
         sub = rng.choice(["PRE", "ACC", "EN", "DN", "TT"] if t == "T" else ["PRE", "ACC", "CU", "CD", "DN", "OV", "UN", "UA"])
         return casing(rng, "%s%d:%d.%s" % (t, n, e, sub)), "ct", (t, n), e, sub, 1
     if t == "B" and r < 0.4:
-        bn = rng.choice([0, 15, 16, 17, nel * 16 - 1, rng.randrange(nel * 16)])
+        bn = rng.choice([b for b in (0, 15, 16, 17, nel * 16 - 1, rng.randrange(nel * 16)) if b < nel * 16])   # only bits the file has
         return casing(rng, "B%d/%d" % (n, bn)), "bit", (t, n), bn // 16, bn % 16, 1
     base = "%s%s:%d" % (t, fnum, e)
     if r < 0.35 and t not in ("F",):
